@@ -733,7 +733,8 @@ Proof.
     apply andb_true_iff in E. destruct E as [E1 E2]. constructor; [|exact (IH E2)].
     intro Hin. apply negb_true_iff in E1. assert (mem_ustr x l = true); [|congruence].
     unfold mem_ustr. apply existsb_exists. exists x. split; [exact Hin|apply ustr_eqb_refl].
-  - destruct bs as [|b r]; [discriminate|]. destruct (tobjs (b :: r)) as [L|]; [|discriminate].
+  - destruct bs as [|b r]; [discriminate|].
+    destruct (tobjs (b :: r)) as [L|]; [|destruct (one_untagged (b :: r)); discriminate].
     destruct (ext_on_tobjs L); [discriminate|]. destruct (one_adjacent L) as [[tg ct]|]; [discriminate|].
     destruct (one_internal L); discriminate.
 Qed.
@@ -863,11 +864,19 @@ Qed.
 (* structural induction that also reaches the lone property of every branch of a oneOf *)
 Definition PropP (P : schema -> Prop) (b : schema) : Prop := forall v sc, In (v, sc) (sch_props b) -> P sc.
 
+Lemma arms_props (P : schema -> Prop) oneo :
+  OForall (Forall (fun b => P b /\ PropP P b)) oneo -> OForall (Forall (PropP P)) oneo /\ OForall (Forall P) oneo.
+Proof.
+  destruct oneo as [bs|]; [|intros _; split; exact I]. cbn [OForall]. intro H. split.
+  - eapply Forall_impl; [|exact H]. intros a Ha. exact (proj2 Ha).
+  - eapply Forall_impl; [|exact H]. intros a Ha. exact (proj1 Ha).
+Qed.
+
 Lemma schema_ind_p (P : schema -> Prop) :
   (forall b, P (SBool b)) ->
   (forall ty fmt enum cst nv sv ik items ai mni mxi uq props req ap mnp mxp allo anyo oneo no ref dflt title,
      Forall P items -> Forall (fun kv => P (snd kv)) props -> OForall P ap ->
-     OForall (Forall (PropP P)) oneo ->
+     OForall (Forall (fun b => P b /\ PropP P b)) oneo ->
      P (SObj ty fmt enum cst nv sv ik items ai mni mxi uq props req ap mnp mxp allo anyo oneo no ref dflt title)) ->
   forall s, P s.
 Proof.
@@ -881,8 +890,7 @@ Proof.
         * eapply Forall_impl; [|exact IHitems]. intros a Ha. exact (proj1 Ha).
         * eapply Forall_impl; [|exact IHprops]. intros a Ha. exact (proj1 Ha).
         * destruct ap; [exact (proj1 IHap)|exact I].
-        * destruct oneo as [bs|]; [|exact I]. cbn [OForall] in *.
-          eapply Forall_impl; [|exact IHone]. intros a Ha. exact (proj2 Ha).
+        * destruct oneo as [bs|]; [|exact I]. cbn [OForall] in *. exact IHone.
       + intros v sc Hx. cbn [sch_props] in Hx. rewrite Forall_forall in IHprops. exact (proj1 (IHprops _ Hx)). }
   intro s. apply H.
 Qed.
@@ -1617,25 +1625,101 @@ Section Main.
         destruct (Sanitize.unique _); [|discriminate]. exact (Hgen _ _ Hcv).
   Qed.
 
+  (* ---- untagged over scalar arms *)
+  Lemma scalar_frag b : scalar_kind b = true -> frag cls keys b = true.
+  Proof.
+    unfold scalar_kind.
+    destruct b as [|ty fmt enum cst nv sv ik items ai mni mxi uq props req ap mnp mxp allo anyo oneo no ref dflt title];
+      [discriminate|]. cbn [classify_s frag].
+    destruct (classify _ _ _ _ _ _ _ _ _ _ _ _ _ _ _ _ _ _ _ _ _ _ _ _) as [[[|] k]|]; try discriminate.
+    destruct k; try discriminate; reflexivity.
+  Qed.
+
+  Lemma scalar_names b nm : scalar_kind b = true -> names_of cls b nm = [].
+  Proof.
+    unfold scalar_kind.
+    destruct b as [|ty fmt enum cst nv sv ik items ai mni mxi uq props req ap mnp mxp allo anyo oneo no ref dflt title];
+      [discriminate|]. cbn [classify_s names_of].
+    destruct (classify _ _ _ _ _ _ _ _ _ _ _ _ _ _ _ _ _ _ _ _ _ _ _ _) as [[[|] k]|]; try discriminate.
+    destruct k; try discriminate; reflexivity.
+  Qed.
+
+  Lemma conv_scalar_te b nm s te s1 : scalar_kind b = true -> cvf b nm s = Some (te, s1) ->
+    match te with DBoolean | DString | DFloat _ | DInteger _ => True | _ => False end.
+  Proof.
+    unfold scalar_kind.
+    destruct b as [|ty fmt enum cst nv sv ik items ai mni mxi uq props req ap mnp mxp allo anyo oneo no ref dflt title];
+      [discriminate|]. cbn [classify_s conv].
+    destruct (classify _ _ _ _ _ _ _ _ _ _ _ _ _ _ _ _ _ _ _ _ _ _ _ _) as [[[|] k]|]; try discriminate.
+    destruct k; try discriminate; cbn [conv_node conv_kind]; intros _ H; injection H as <- _; exact I.
+  Qed.
+
+  Lemma conv_xvar_scalar nm v b s vd d s1 : scalar_kind b = true ->
+    conv_xvar cvf nm v b s = Some (vd, d, s1) -> exists t, vd = VItem t /\ d = false.
+  Proof.
+    intros Hk. unfold conv_xvar. destruct (cvf b (append_name nm v) s) as [[te sa]|] eqn:Hc; [|discriminate].
+    pose proof (conv_scalar_te b _ s te sa Hk Hc) as Hte.
+    destruct te; try contradiction; destruct (assign _ sa) as [t9 s9]; intro H; injection H as <- <- _;
+      eexists; split; reflexivity.
+  Qed.
+
+  Lemma conv_ubranches_total n : forall bs i s0,
+    Forall Tot bs -> forallb scalar_kind bs = true -> conv_ubranches cvf n i bs s0 <> None.
+  Proof.
+    induction bs as [|b r IH]; intros i s0 HT Hk; [discriminate|].
+    cbn [forallb] in Hk. apply andb_true_iff in Hk. destruct Hk as [Hk1 Hk2]. cbn [conv_ubranches].
+    destruct (conv_xvar cvf (NSuggested n) _ b s0) as [[[vd d1] s1]|] eqn:Hx.
+    - destruct (conv_ubranches cvf n (S i) r s1) as [[[vs2 d2] s2]|] eqn:Hr; [discriminate|].
+      exfalso. exact (IH (S i) s1 (Forall_inv_tail HT) Hk2 Hr).
+    - exfalso. refine (conv_xvar_total (NSuggested n) _ b s0 (Forall_inv HT) (scalar_frag b Hk1) _ Hx). discriminate.
+  Qed.
+
+  Lemma conv_ubranches_spec n : forall bs i s0 rvs d s1,
+    forallb scalar_kind bs = true -> conv_ubranches cvf n i bs s0 = Some (rvs, d, s1) ->
+    map fst rvs = variant_n_names i bs /\ d = false /\ forall rv, In rv rvs -> exists t, snd rv = VItem t.
+  Proof.
+    induction bs as [|b r IH]; intros i s0 rvs d s1 Hk H; cbn [conv_ubranches] in H.
+    - injection H as <- <- _. repeat split; try reflexivity. intros rv [].
+    - cbn [forallb] in Hk. apply andb_true_iff in Hk. destruct Hk as [Hk1 Hk2].
+      destruct (conv_xvar cvf (NSuggested n) _ b s0) as [[[vd d1] sa]|] eqn:Hx; [|discriminate].
+      destruct (conv_ubranches cvf n (S i) r sa) as [[[vs2 d2] s2]|] eqn:Hr; [|discriminate].
+      injection H as <- <- _. destruct (IH (S i) sa vs2 d2 s2 Hk2 Hr) as (H1 & -> & H3).
+      destruct (conv_xvar_scalar _ _ b s0 vd d1 sa Hk1 Hx) as (t & -> & ->).
+      split; [cbn [map fst variant_n_names]; f_equal; exact H1|]. split; [reflexivity|].
+      intros rv [<-|Hin]; [eexists; reflexivity|exact (H3 rv Hin)].
+  Qed.
+
   Lemma conv_kind_total items props req ap oneo k nm s0 :
     frag_kind k items props req ap oneo = true ->
     Forall Tot items -> Forall (fun kv => Tot (snd kv)) props -> OForall Tot ap ->
-    OForall (Forall (PropP Tot)) oneo ->
+    OForall (Forall (fun b => Tot b /\ PropP Tot b)) oneo ->
     (match k with
      | KVec _ => exists it, items = [it]
      | _ => True end) ->
     name_opt nm <> None ->
     conv_kind cls (ref_id D) cvf k nm items props req ap oneo s0 <> None.
   Proof.
-    intros Hfk HTi HTp HTa HTo Hshape Hnm.
+    intros Hfk HTi HTp HTa HTo0 Hshape Hnm. destruct (arms_props Tot oneo HTo0) as [HTo HToB].
     destruct (type_name_some nm Hnm) as (n & Hn).
     destruct k as [| | | |mx mn pat|r|raws|deny| | |c|c|r| |tg]; cbn [conv_kind]; try discriminate.
     9: { (* KOne *)
-      cbn [frag_kind] in Hfk. destruct oneo as [bs|]; [|discriminate]. cbn [OForall] in HTo.
+      cbn [frag_kind] in Hfk. destruct oneo as [bs|]; [|discriminate]. cbn [OForall] in HTo, HToB.
       apply andb_true_iff in Hfk. destruct Hfk as [Hfk Hpt].
       apply andb_true_iff in Hfk. destruct Hfk as [Hfk Hfr]. apply andb_true_iff in Hfk. destruct Hfk as [Hid Hbok].
       destruct (variant_names tg bs) as [names|] eqn:Hnames; [|discriminate].
-      destruct tg as [|t|t c|]; [| | |discriminate Hpt]; rewrite Hn.
+      destruct tg as [|t|t c|]; rewrite Hn.
+      4: { (* untagged *)
+        cbn [variant_names] in Hnames. injection Hnames as <-.
+        cbn [branches_ok] in Hbok. destruct (opt_all_map scalar_arm bs) as [tys|]; [|discriminate].
+        apply andb_true_iff in Hbok. destruct Hbok as [_ Hsk].
+        destruct (conv_ubranches cvf n 0 bs s0) as [[[rvs deny] s1]|] eqn:Hc;
+          [|exfalso; exact (conv_ubranches_total n bs 0%nat s0 HToB Hsk Hc)].
+        destruct (conv_ubranches_spec n bs 0%nat s0 rvs deny s1 Hsk Hc) as (Hfst & _ & Hitem).
+        assert (Hnone : filter (fun p : ustring * vdetails => match snd p with VSimple => true | _ => false end) rvs = []).
+        { apply filter_none. intros rv Hin. destruct (Hitem rv Hin) as (t & ->). reflexivity. }
+        rewrite Hnone. cbn [length Nat.leb].
+        unfold mk_tagged. rewrite Hfst.
+        destruct (Sanitize.variant_idents cls (variant_n_names 0 bs)); try discriminate Hid. discriminate. }
       - (* external *)
         cbn [variant_names] in Hnames.
         assert (HTo' : Forall (PayP Tot) bs) by (eapply Forall_impl; [|exact HTo]; intros a Ha; exact (PropP_PayP _ a Ha)).
